@@ -33,6 +33,20 @@ def _limits():
         pass
 
 
+def _prune_old_builds(max_age_s=3 * 3600):
+    """Every distinct harness selection gets its own build directory under target/ (hundreds of
+    MB of goto binaries each); drop the ones not touched for a few hours to bound disk use."""
+    import glob
+    import shutil
+    now = time.time()
+    for d in glob.glob(os.path.join(TARGET, "kani", "*", "debug", "build", "rbverif", "*")):
+        try:
+            if now - os.path.getmtime(d) > max_age_s:
+                shutil.rmtree(d, ignore_errors=True)
+        except OSError:
+            pass
+
+
 class HarnessResult:
     def __init__(self, name):
         self.name = name
@@ -60,6 +74,7 @@ def run(harnesses, jobs=16, harness_timeout=900, extra_args=(), overall_timeout=
     results = {h: HarnessResult(h) for h in harnesses}
     if not harnesses:
         return results, True, ""
+    _prune_old_builds()
     fd, out_json = tempfile.mkstemp(prefix="kani_", suffix=".json")
     os.close(fd)
     os.unlink(out_json)
